@@ -11,7 +11,7 @@ from checks import c05_gen
 from harness.common import Machinery
 
 ENUM_CFG = ("INIT EnumInit\nNEXT MachineNext\nCONSTRAINT EnumEmit\nINVARIANT Invariants\nINVARIANT EnumTerminates\n"
-            "INVARIANT NewFamilyCoverage\nINVARIANT Round3Coverage\nPROPERTY LogAppendOnly\nCHECK_DEADLOCK FALSE\n")
+            "INVARIANT NewFamilyCoverage\nINVARIANT Round3Coverage\nINVARIANT Round4Coverage\nPROPERTY LogAppendOnly\nCHECK_DEADLOCK FALSE\n")
 JUDGE_REF_CFG = ("INIT JudgeInit\nNEXT MachineNext\nCONSTRAINT JudgeEmit\nINVARIANT Invariants\n"
                  "PROPERTY LogAppendOnly\nCHECK_DEADLOCK FALSE\n")
 # as-is runs model the engine's defects (a skipped finally is one of them): only well-formedness is an invariant there
@@ -247,7 +247,7 @@ def run(rep):
     report(rep, allc, results, verdicts)
     rverdicts = {c["id"]: verdicts[c["id"]] for c in rcases}
     rrecs = rcases
-    trace_stage(rep, [c for c in cases if c["fam"] in ("CF", "CL", "CH", "IR", "XA", "FP", "LS", "CP", "TX")], int(os.environ.get("C05_NTRACE", "250" if rep.tier == "quick" else "1500")))
+    trace_stage(rep, [c for c in cases if c["fam"] in ("CF", "CL", "CH", "IR", "XA", "FP", "LS", "CP", "TX", "UL")], int(os.environ.get("C05_NTRACE", "250" if rep.tier == "quick" else "1500")))
     skipped = sum(1 for v in rverdicts.values() if v["v"] == "skip")
     if nrand and skipped * 3 > nrand:
         raise Machinery("%d of %d random programs fall outside the step bound: generator and bound disagree" % (skipped, nrand))
